@@ -87,6 +87,39 @@ pub fn debug_list_of_courses(courses: &[Course]) -> String {
         .join("\n")
 }
 
+/// Check that a given courses/participants data structure is consistent (in terms of cross referencing indexes and
+/// course sizes). In contrast to [assert_data_consitency], this function does not panic but returns an error message
+/// to be presented to the user.
+pub fn check_data_consistency(
+    participants: &[Participant],
+    courses: &[Course],
+) -> Result<(), String> {
+    for (i, p) in participants.iter().enumerate() {
+        for choice in p.choices.iter() {
+            if choice.course_index >= courses.len() {
+                return Err(format!(
+                    "Choice {} of {}. participant is invalid",
+                    choice.course_index, i
+                ));
+            }
+        }
+    }
+    for (i, c) in courses.iter().enumerate() {
+        for instr in c.instructors.iter() {
+            if *instr >= participants.len() {
+                return Err(format!("Instructor {} of {}. course is invalid", instr, i));
+            }
+        }
+        if c.num_min > c.num_max {
+            return Err(format!(
+                "Min size ({}) > max size ({}) of {}. course",
+                c.num_min, c.num_max, i
+            ));
+        }
+    }
+    Ok(())
+}
+
 /// Assert that a given courses/participants data structure is consistent (in terms of object's
 /// indexes and cross referencing indexes)
 pub fn assert_data_consitency(participants: &[Participant], courses: &[Course]) {
